@@ -9,6 +9,8 @@ pub mod util;
 #[cfg(kani)]
 mod c07;
 #[cfg(kani)]
+mod c08;
+#[cfg(kani)]
 mod c12;
 #[cfg(kani)]
 mod c13;
